@@ -197,6 +197,9 @@ class AutoRestartTrick(Trick):
         self._restart_lock = threading.RLock()
 
     def start(self) -> None:
+        if self._is_trick_stopping:
+            # stop() is final: a debouncer thread started now would never be stopped.
+            return
         if self.debounce_interval_seconds:
             self.event_debouncer = EventDebouncer(
                 debounce_interval_seconds=self.debounce_interval_seconds,
